@@ -496,3 +496,38 @@ Qed.
 Theorem force_implies_verify conf_verify fp ca :
   verify_choice true conf_verify fp ca = true \/ fp = true \/ ca = true.
 Proof. unfold verify_choice. destruct conf_verify, fp, ca; cbn; auto. Qed.
+
+(* ---- the forced verification set by the policy reaches the TLS layer ---- *)
+Lemma fill_attempt_keeps sv drv : sv_host (fill_attempt sv drv) = sv_host sv /\ sv_port (fill_attempt sv drv) = sv_port sv /\
+  sv_force (fill_attempt sv drv) = sv_force sv.
+Proof. unfold fill_attempt. destruct (Z.eqb (sv_attempt sv) (-1)); repeat split. Qed.
+
+(* whatever the configured list, the store, the clock, the driver's attempt counter and the TLS settings: if the host of
+   the server that SocketDriver.connect() takes had an unexpired stored policy, the connection goes to the policy's
+   port, TLS is started, and the certificate is verified (full verification, or the configured fingerprints / CA) *)
+Theorem sts_reaches_tls conf now n m drv ssl cv fp ca :
+  forall c, snd (connectS conf now n m drv ssl cv fp ca) = Ok c ->
+  forall pol port duration,
+    dict_get (sv_host (cn_server c)) (policies n) = Some pol -> parseStsPolicy2 pol true = Some (port, duration) ->
+    unexpired now n (sv_host (cn_server c)) duration ->
+    sv_port (cn_server c) = port /\ sv_force (cn_server c) = true /\ cn_tls c = true /\
+    (cn_verify c = true \/ fp = true \/ ca = true).
+Proof.
+  intros c Hc pol port duration Hp Hparse Hu. unfold connectS in Hc.
+  pose proof (every_connection conf [MNext now] (n, m)) as Hg. cbn [mrun mstep] in Hg.
+  destruct (getNextServer conf now n m) as [[n' m'] r]. cbn [fst] in Hg. inversion Hg as [|x l Hgood _]; subst. clear Hg.
+  destruct r as [sv|e]; cbn [snd] in Hc; [|discriminate]. inversion Hc; subst c. clear Hc.
+  unfold connect_with in *. cbn [cn_server cn_tls cn_verify] in *.
+  destruct (fill_attempt_keeps sv (drv + 1)) as [Eh [Ept Ef]]. rewrite Eh in Hp, Hu.
+  destruct (Hgood sv eq_refl pol port duration Hp Hparse Hu) as [Hport Hforce].
+  rewrite Ept, Ef, Hport, Hforce. rewrite orb_true_r. repeat split. apply force_implies_verify.
+Qed.
+
+(* the seeded-change scenario: stored policy, configured entry (attempt = None), ssl off, no validation configured *)
+Example sts_reaches_tls_example :
+  let h := [104] in
+  let pol := s_port ++ [61;54;54;57;55;44] ++ s_duration ++ [61;49;48;48;48] in
+  snd (connectS [Server h 6667 (-1) false] 50 (Net [(h, pol)] [(h, 20%Z)]) (Mixin [] None) 3 false false false false)
+  = Ok (Conn (Server h 6697 4 true) true true).
+Proof. vm_compute. reflexivity. Qed.
+
